@@ -713,3 +713,105 @@ func (la *Locks) HeldAt(f *Func, l *Lit, x ast.Node, mu *types.Var, need int, de
 type ssaState struct {
 	locks *Locks
 }
+
+// Reacquire is a place where a mutex that is already held is locked again (directly or through a call).
+type Reacquire struct {
+	Site  *Site  // the call made while holding the lock (nil for a direct re-lock)
+	Pos   token.Pos
+	Where string
+	Via   []string // callee chain down to the Lock/RLock
+	Held  int      // mode held
+}
+
+// acquires: function f (its body and synchronously invoked literals) may lock mu, directly or through calls.
+func (la *Locks) acquires(f *Func, mu *types.Var, depth int, seen map[*Func]bool) []string {
+	if f == nil || f.Decl.Body == nil || depth < 0 || seen[f] {
+		return nil
+	}
+	seen[f] = true
+	info := f.Pkg.TypesInfo
+	var chain []string
+	var walk func(n ast.Node)
+	walk = func(n ast.Node) {
+		ast.Inspect(n, func(m ast.Node) bool {
+			if chain != nil {
+				return false
+			}
+			switch t := m.(type) {
+			case *ast.GoStmt:
+				return false
+			case *ast.FuncLit:
+				if l := la.P.LitOf(t); l != nil && (l.Go || (l.Invoked == nil && l.ArgOf == nil)) {
+					return false // runs elsewhere
+				}
+			case *ast.CallExpr:
+				if m2, op := MutexOp(info, t); m2 == mu && (op == "Lock" || op == "RLock") {
+					chain = []string{f.Key + ":" + op}
+					return false
+				}
+				if fn, ok := CalleeOf(info, t).(*types.Func); ok {
+					targets := la.P.CallTargets(f, info, t, fn)
+					for _, cf := range targets {
+						if sub := la.acquires(cf, mu, depth-1, seen); sub != nil {
+							chain = append([]string{f.Key}, sub...)
+							return false
+						}
+					}
+				}
+			}
+			return true
+		})
+	}
+	walk(f.Decl.Body)
+	return chain
+}
+
+// Reacquisitions finds every call made with mu held whose callee may lock mu again, and direct re-locks.
+func (la *Locks) Reacquisitions(mu *types.Var, depth int) []Reacquire {
+	var out []Reacquire
+	for _, s := range la.P.AllSites() {
+		if s.In == nil || s.Go {
+			continue
+		}
+		g := la.GraphFor(s.In, s.InLit)
+		if g == nil {
+			continue
+		}
+		st, _ := la.StateAt(g, s.Call)
+		h, held := st[mu]
+		if !held {
+			continue
+		}
+		info := s.Pkg.TypesInfo
+		if m2, op := MutexOp(info, s.Call); m2 == mu && (op == "Lock" || op == "RLock") {
+			out = append(out, Reacquire{Pos: s.Call.Pos(), Where: s.Where(), Via: []string{op}, Held: h.Mode})
+			continue
+		}
+		fn, ok := s.Callee.(*types.Func)
+		if !ok {
+			continue
+		}
+		targets := la.P.CallTargets(s.In, info, s.Call, fn)
+		for _, cf := range targets {
+			// a lock wrapper that is passed a literal starting with the lock held is not a re-acquisition by itself;
+			// what matters is whether the callee locks mu
+			if chain := la.acquires(cf, mu, depth, map[*Func]bool{}); chain != nil {
+				out = append(out, Reacquire{Site: s, Pos: s.Call.Pos(), Where: s.Where(), Via: chain, Held: h.Mode})
+				break
+			}
+		}
+	}
+	return out
+}
+
+// HeldMutexes returns the mutexes held right before the node containing x (any mutex object).
+func (la *Locks) HeldMutexes(f *Func, l *Lit, x ast.Node) []*types.Var {
+	g := la.GraphFor(f, l)
+	st, _ := la.StateAt(g, x)
+	var out []*types.Var
+	for k := range st {
+		out = append(out, k)
+	}
+	sort.Slice(out, func(i, j int) bool { return out[i].Name() < out[j].Name() })
+	return out
+}
